@@ -1,9 +1,55 @@
+# C08: orientation algebra.  (i) handle conversions (C08_handles.cpp), (ii) mirror relation of the two sides of edges and faces (C08_mirror.cpp).
+def _c08_vlist_shards(specs_):   # specs_: [(L, NV)] -> one shard per chunk of 8 vertex lists
+    out = []
+    for (L, NV) in specs_:
+        for ch in range((NV ** L + CASES_PER_QUERY - 1) // CASES_PER_QUERY):
+            out.append({0: L, 1: NV, 2: ch})
+    return out
+_C08_NONE = lambda bases: [{0: b, 1: 0, 2: OP_NONE, 3: 0} for b in bases]
+_c08_ops_common = dict(harness="C08_mirror.cpp", entries=["harness_mirror_ops"], units=CORE, unwind=26, checks="none", object_bits=13, witness_any=True, mem_gb=6)
+_C08_OPS_BOUNDS = ("every live face of the base mesh after ONE operation chosen by selector dispatch (8 argument tuples per query; shard = base, deletion mode, operation kind, chunk): "
+    "halfface(hf) of both sides vs the stored definition (side 1 = reversed list of opposite halfedges), opposite of opposite = identity, closed loop, "
+    "halfface_vertices/halfedges/edges of both sides and face_vertices/halfedges/edges (one lap, elements, the two sides enumerate the same cycle in opposite directions), "
+    "next/prev_halfedge_in_halfface (for halfedges occurring once in the face) with a free symbolic position in the cycle; halfedge(h^1) swaps from/to for a free symbolic halfedge probe; ")
+
 PROPS["C08"] = dict(
   jobs=[
     dict(name="handles", harness="C08_handles.cpp", entries=["harness_handles"], units=["Core/Handles.cc"],
          unwind=4, solvers=["minisat"], timeout=300, mem_gb=2,
          bounds="every edge/face index in [0,2^30), every non-negative half-entity index (full int range)"),
+    dict(name="mirror-vlist", harness="C08_mirror.cpp", entries=["harness_mirror_vlist"], units=CORE, unwind=26, checks="none", object_bits=13, witness_any=True,
+         shards={"quick": _c08_vlist_shards([(1, 5), (2, 5), (3, 3), (4, 2), (5, 2)]),
+                 "thorough": _c08_vlist_shards([(1, 5), (2, 5), (3, 4), (4, 3), (5, 3)])},
+         timeout={"quick": 300, "thorough": 900}, mem_gb=6,
+         bounds="face built by add_face(vertex list) on a 5-vertex mesh that already holds edge (1,0): EVERY vertex list of length L over the first NV vertices (loops, 2-gons, repeated "
+                "vertices included), selector dispatch, 8 lists per query; quick (L,NV) = (1,5) (2,5) (3,3) (4,2) (5,2), thorough (1,5) (2,5) (3,4) (4,3) (5,3); checked: the face visits "
+                "the given vertices in order, is a closed loop, halfface(hf^1) = reversed opposite halfedges, double opposite = identity, the six circulators of both sides, next/prev "
+                "(halfedges occurring once in the face), halfedge(h^1) swaps from/to (free symbolic halfedge probe and position in the cycle); outside: valence > 5, larger vertex sets"),
+    dict(name="mirror-accept", harness="C08_mirror.cpp", entries=["harness_mirror_accept"], units=CORE, unwind=26, checks="none", object_bits=13,
+         shards=[{0: L} for L in (1, 2, 3, 4, 5)], timeout=300, mem_gb=4,
+         bounds="add_face(halfedge list, topologyCheck=true) with a FREE SYMBOLIC halfedge list of length L = 1..5 over the 14 halfedges of a fixed edge set on 4 vertices (triangle, "
+                "chord stored in reverse, duplicate edge, loop edge), edge bottom-up incidences off: an accepted list is a closed loop and is stored unchanged"),
+    dict(name="mirror-helist", harness="C08_mirror.cpp", entries=["harness_mirror_helist"], units=CORE, unwind=26, checks="none", object_bits=13,
+         shards=[{0: L} for L in (1, 2, 3, 4, 5)], timeout={"quick": 300, "thorough": 900}, mem_gb=4,
+         bounds="EVERY closed halfedge loop of length L = 1..5 over the same 14 halfedges (free symbolic list, assumed closed, stored by add_face without the check; edge bottom-up "
+                "incidences off): all mirror obligations of mirror-vlist for the resulting face"),
+    dict(name="mirror-base", shards=_C08_NONE([B_LOWDIM, B_TRI2, B_TET, B_TET2_FACE]), timeout={"quick": 300, "thorough": 900},
+         bounds=_C08_OPS_BOUNDS + "here: no operation, bases: triangle+dangling/duplicate edge, two triangles, tetrahedron, two tetrahedra sharing a face",
+         **_c08_ops_common),
+    dict(name="mirror-base-big", tiers=["thorough"], shards=_C08_NONE([B_HEX, B_PRISM_PYR, B_TET2_EDGE, B_TET3_RING, B_HEX2]), timeout=1500,
+         bounds=_C08_OPS_BOUNDS + "here: no operation, bases: hexahedron, prism+pyramid (mixed valences), two tetrahedra sharing an edge, three tetrahedra around an edge, two hexahedra",
+         **_c08_ops_common),
+    dict(name="mirror-ops-tri2", shards=op_shards([B_TRI2], [0], [OP_SWAP_V, OP_SWAP_E, OP_SWAP_F, OP_DEL_V, OP_DEL_E, OP_DEL_F]) + op_shards([B_TRI2], [3], [OP_DEL_V, OP_DEL_E]),
+         timeout={"quick": 300, "thorough": 900}, bounds=_C08_OPS_BOUNDS + "here: two triangles sharing an edge; every swap_vertex/edge/face_indices pair, every delete_vertex/edge/face (immediate deletion), "
+         "delete_vertex/edge with deferred+fast deletion", **_c08_ops_common),
+    dict(name="mirror-ops-tet", tiers=["thorough"],
+         shards=op_shards([B_TET], [0], [OP_SWAP_V, OP_SWAP_E, OP_SWAP_F, OP_SWAP_C, OP_DEL_V, OP_DEL_E, OP_DEL_F, OP_DEL_C, OP_GC, OP_ADD_E])
+                + op_shards([B_TET], [1, 2, 3], [OP_DEL_V, OP_DEL_E, OP_DEL_F]) + op_shards([B_LOWDIM], [0, 2], [OP_DEL_V, OP_DEL_E, OP_SWAP_E]),
+         timeout=1500, bounds=_C08_OPS_BOUNDS + "here: one tetrahedron with every swap pair / deletion (all four deletion modes) / collect_garbage / add_edge, and the low-dimensional "
+         "base with deletions and edge swaps", **_c08_ops_common),
   ],
-  assumptions=[],
+  assumptions=[
+    "next/prev_halfedge_in_halfface are asserted only for halfedges that occur exactly once in the face (the interface identifies the position by the halfedge handle)",
+    "the face circulators are compared as cyclic sequences (the rotation at which a circulator starts is not prescribed by the property)",
+  ],
 )
-
